@@ -63,6 +63,15 @@ ALTS = {
         {"key_paths": [[P + "name", P + "span_id"]], "value_type": "string"},
         {"key_paths": [[ATTR, P + "name"]], "key_value": [["no.such", None]],
          "value_paths": [[SV, None]], "value_type": "string"},
+        # the same attribute looked up twice with different value paths:
+        # priority fall-back StringValue -> IntValue, and a concatenation of
+        # two sub-values of one attribute
+        {"key_paths": [[ATTR, ATTR]],
+         "key_value": [["http.response", "http.response"]],
+         "value_paths": [[SV, IV]], "value_type": "string"},
+        {"key_paths": [ATTR, ATTR],
+         "key_value": ["http.method", "http.method"],
+         "value_paths": [SV, "key"], "value_type": "string"},
     ],
     "job_name": [
         kv(RES, "service.version", SV),
@@ -73,6 +82,9 @@ ALTS = {
         {"key_paths": [[RES, RES]],
          "key_value": [["service.absent", "service.name"]],
          "value_paths": [[SV, SV]], "value_type": "string"},
+        {"key_paths": [[RES, RES]],
+         "key_value": [["service.name", "service.name"]],
+         "value_paths": [[IV, SV]], "value_type": "string"},
     ],
     "application_name": [
         plain(P + "name"),
